@@ -337,6 +337,12 @@ theorem sq_result_fresh (H : Host) (t : Tmpl) (wf : t.WF = true) (st : Stack) :
     | none => rfl
     | some v => cases built (toBinding H) t <;> simp [pushAll_single]
 
+/-- In contrast, a pushed value is not allocated by the run: it is the object the generator
+was handed, on every evaluation (what `sq_code_pushes_no_container` rules out for containers). -/
+theorem push_allocates_nothing (H : Host) (v : Sexp) (st : Stack) :
+    runA H [.push v] st = some (.val v :: st, []) := by
+  simp [runA, stepA, step]
+
 /-- The allocating machine is the machine of `sq_correct` with a report added. -/
 theorem sq_alloc_machine_agrees (H : Host) (c : List Instr) (st : Stack) :
     (runA H c st).map (·.1) = run H c st := runA_fst H c st
